@@ -120,6 +120,18 @@ def read_only(ctx):
                     o_ <<= w_[::-1]
                 d.outputs.append(o_)
             ctx.count('non-ascending-select', 'added')
+        # every third design reads a ROM (list or function data) if the generator gave it none
+        if k % 3 == 0 and srcs_ and not any(isinstance(n_.op_param[1], pyrtl.RomBlock) for n_ in blk.logic_subset('m')):
+            with pyrtl.set_working_block(blk, no_sanity_check=True):
+                a_ = rng.choice(srcs_)
+                aw_ = min(len(a_), 3)
+                mul_ = rng.randrange(1, 16, 2)
+                rom_ = pyrtl.RomBlock(4, aw_, [rng.getrandbits(4) for _ in range(1 << aw_)] if k % 2 else (lambda x, mul_=mul_: (x * mul_ + 3) & 15),
+                                      name='verif_rom', asynchronous=True)
+                ro_ = pyrtl.Output(4, 'verif_rom_out')
+                ro_ <<= rom_[a_[0:aw_]]
+                d.outputs.append(ro_)
+            ctx.count('rom-added', 'list' if k % 2 else 'function')
         steps = gen.rand_stimulus(rng, d, 4)
         _, memmap, _ = gen.rand_init(rng, d, with_default=False)
         memmap_by_id = {m.id: mm for m, mm in memmap.items()}
